@@ -205,48 +205,58 @@ func Run(r *core.Run) {
 							r.Case(id, func() *core.Fail {
 								an := &operation.AnchoredOperation{Type: typ, UniqueSuffix: suffix, OperationRequest: b,
 									TransactionTime: uint64(t), TransactionNumber: 2}
-								res, err := app.Apply(an, prev)
-								det := ops.M{"request": string(b), "anchoring_time": t, "from": from, "until": until, "delta": D,
-									"config": j.v.name, "expected_effective": effective}
-								fail := func(what string) *core.Fail {
-									det["observed"] = what
-									return &core.Fail{Key: id, What: fmt.Sprintf("%s (effective expected %v)", what, effective), Detail: det}
-								}
-								switch typ {
-								case operation.TypeUpdate:
-									if err != nil || res == nil {
-										return fail(fmt.Sprintf("update refused: %v", err))
+								// the previous state as it is, and as a resolver that also applies not yet published operations hands it over:
+								// with the operation being applied (the very same object) already listed as unpublished / published
+								listedU, listedP := *prev, *prev
+								listedU.UnpublishedOperations = append(append([]*operation.AnchoredOperation{}, prev.UnpublishedOperations...), an)
+								listedP.PublishedOperations = append(append([]*operation.AnchoredOperation{}, prev.PublishedOperations...), an)
+								for vi, rm := range []*protocol.ResolutionModel{prev, &listedU, &listedP} {
+									res, err := app.Apply(an, rm)
+									det := ops.M{"request": string(b), "anchoring_time": t, "from": from, "until": until, "delta": D,
+										"config": j.v.name, "expected_effective": effective, "previous_state_variant": []string{"as created", "operation listed as unpublished", "operation listed as published"}[vi]}
+									fail := func(what string) *core.Fail {
+										det["observed"] = what
+										if vi > 0 {
+											what += " [previous state: " + det["previous_state_variant"].(string) + "]"
+										}
+										return &core.Fail{Key: id, What: fmt.Sprintf("%s (effective expected %v)", what, effective), Detail: det}
 									}
-									if res.UpdateCommitment != ops.Commitment(next1, code) {
-										return fail("update commitment not advanced")
-									}
-									doc := string(jcs.MustCanonGo(res.Doc))
-									if effective && doc == prevDoc {
-										return fail("in-window update left the document unchanged")
-									}
-									if !effective && doc != prevDoc {
-										return fail("out-of-window update changed the document: " + doc)
-									}
-								case operation.TypeRecover:
-									if err != nil || res == nil {
-										return fail(fmt.Sprintf("recover refused: %v", err))
-									}
-									if res.UpdateCommitment != ops.Commitment(next1, code) || res.RecoveryCommitment != ops.Commitment(next2, code) {
-										return fail("recover did not advance both commitments")
-									}
-									doc := string(jcs.MustCanonGo(res.Doc))
-									if effective && doc == "{}" {
-										return fail("in-window recover installed no document")
-									}
-									if !effective && doc != "{}" {
-										return fail("out-of-window recover installed a document: " + doc)
-									}
-								case operation.TypeDeactivate:
-									if effective && (err != nil || res == nil || !res.Deactivated) {
-										return fail(fmt.Sprintf("in-window deactivate refused: %v", err))
-									}
-									if !effective && (err == nil || res != nil) {
-										return fail("out-of-window deactivate accepted")
+									switch typ {
+									case operation.TypeUpdate:
+										if err != nil || res == nil {
+											return fail(fmt.Sprintf("update refused: %v", err))
+										}
+										if res.UpdateCommitment != ops.Commitment(next1, code) {
+											return fail("update commitment not advanced")
+										}
+										doc := string(jcs.MustCanonGo(res.Doc))
+										if effective && doc == prevDoc {
+											return fail("in-window update left the document unchanged")
+										}
+										if !effective && doc != prevDoc {
+											return fail("out-of-window update changed the document: " + doc)
+										}
+									case operation.TypeRecover:
+										if err != nil || res == nil {
+											return fail(fmt.Sprintf("recover refused: %v", err))
+										}
+										if res.UpdateCommitment != ops.Commitment(next1, code) || res.RecoveryCommitment != ops.Commitment(next2, code) {
+											return fail("recover did not advance both commitments")
+										}
+										doc := string(jcs.MustCanonGo(res.Doc))
+										if effective && doc == "{}" {
+											return fail("in-window recover installed no document")
+										}
+										if !effective && doc != "{}" {
+											return fail("out-of-window recover installed a document: " + doc)
+										}
+									case operation.TypeDeactivate:
+										if effective && (err != nil || res == nil || !res.Deactivated) {
+											return fail(fmt.Sprintf("in-window deactivate refused: %v", err))
+										}
+										if !effective && (err == nil || res != nil) {
+											return fail("out-of-window deactivate accepted")
+										}
 									}
 								}
 								return nil
